@@ -109,6 +109,8 @@ def compile_idl(rnd, beh):
                 pkt[k] = damage2(pkt[k])
             lines.append("F " + "".join("%02x" % b for b in pkt))
             exp.append([dict(n=len(user), flags=(1 if o["lost"] else 0) | (8 if o["dep"] else 0), bytes=user) for o in st["out"]])
+        elif a["a"] == "Burst":
+            continue          # k packets of the selected address are lost: nothing arrives, the sender's counter went on
         else:
             k = a["kind"]
             if k == "addr":
@@ -157,6 +159,14 @@ def pfc_packets(rnd, tr):
             pk = ttx.mrag(mag, 0) + [ttx.ham8(PFC_PGNO & 15), ttx.ham8((PFC_PGNO >> 4) & 15), ttx.ham8(ci),
                                      ttx.ham8(np_ & 7), ttx.ham8(PFC_STREAM), ttx.ham8((np_ >> 3) & 3),
                                      ttx.ham8(0), ttx.ham8(0)] + [ttx.par8(0x20)] * 32
+        elif it["t"] in ("X", "S", "M"):
+            # headers that are not for us: another page of our magazine / our page with another stream / another magazine
+            pg = (PFC_PGNO ^ 0x01) if it["t"] == "X" else PFC_PGNO
+            m = (mag % 8) + 1 if it["t"] == "M" else mag
+            st = PFC_STREAM ^ 1 if it["t"] == "S" else PFC_STREAM
+            pk = ttx.mrag(m, 0) + [ttx.ham8(pg & 15), ttx.ham8((pg >> 4) & 15), ttx.ham8(rnd.randrange(16)),
+                                   ttx.ham8(rnd.randrange(1, 8)), ttx.ham8(st), ttx.ham8(0),
+                                   ttx.ham8(0), ttx.ham8(0)] + [ttx.par8(0x20)] * 32
         else:
             bp = ttx.ham8(it["bp"])
             if fault["k"] == "badbp" and fault["at"] == n + 1:
@@ -237,7 +247,7 @@ def run(ctx):
     ctx.add_mc(r, "MC_IdlA")
     if r.violation:
         ctx.violate("mc", "mc:%s:%s" % (r.violation["kind"], r.violation["name"]), r.violation["text"][:3000])
-    g = tlc.run("Gen_IdlA", "Gen_IdlA_q" if quick else "Gen_IdlA", timeout=900, collect_tr=True, heap="12g", max_tr=60000 if quick else 400000)
+    g = tlc.run("Gen_IdlA", "Gen_IdlA_q" if quick else "Gen_IdlA", timeout=900, collect_tr=True, heap="12g", sample_tr=(8, ctx.seed) if quick else (3, ctx.seed))      # a uniform sample, not a BFS prefix
     ctx.add_mc(g, "GEN IdlA")
     behs = g.tr
     comp = [compile_idl(rnd, b) for b in behs]
